@@ -42,7 +42,7 @@ def plan(tier, seed):
                 'floor': {'distinct_nontrivial': 2000, 'executions': 50000, 'close_points': 10000,
                           'drop_points': 10000, 'throw_points': 10000, 'user_raise_points': 5000,
                           'variables_created_during_runs': 50000, 'with_outer_bindings': 10000}}
-    return {'n': 130000, 'deadline': 560, 'case_timeout': 60,
+    return {'n': 190000, 'deadline': 560, 'case_timeout': 60,
             'floor': {'distinct_nontrivial': 8000, 'executions': 400000, 'close_points': 80000,
                       'drop_points': 80000, 'throw_points': 80000, 'user_raise_points': 30000,
                       'variables_created_during_runs': 1000000, 'with_outer_bindings': 60000}}
